@@ -12,6 +12,24 @@ def hook_commits():
         return []
 
 CHECKS = {
+ "C06": dict(
+    level="exploration",
+    technique="defect injection at every reference position (exhaustive position x reference-text matrix + rapid-mutated valid configurations) against an independent reference analysis; accepted outputs are compiled and probed",
+    text="References are removed, renamed or added at every position (parameter chunk single/multi/after %%, constructor, call, field, decorator argument) one at a time and in combination; the accept/reject verdict and the exact set of (referrer, missing name) facts are compared with the reference model, and accepted containers are executed to show no 'does not exist' at run time.",
+    note="Trusts the reference analysis (own pattern parser and reference walk) and the report parser; wording of diagnostics is not compared, only the facts named.",
+    ref="DESIGN.md §4 C06"),
+ "C07": dict(
+    level="exploration",
+    technique="bounded-exhaustive enumeration of small dependency structures + rapid sparse random graphs; oracle = own graph construction and Tarjan SCC; cycle reports validated edge by edge; accepted containers probed for CircularDeps()/termination",
+    text="Complete for the enumerated spaces (512 parameter structures, 256 three-service structures, and in the thorough tier all 2^19 structures on 2 services x 2 tags x 1..2 decorators), sampling beyond; decides both directions: cyclic => rejected with a cycle through every element on one, acyclic => accepted and the running container terminates.",
+    note="Trusts the harness's graph code; components with more than 7 nodes and more than 24 internal edges are skipped (counted) because elementary-cycle enumeration is exponential there.",
+    ref="DESIGN.md §4 C07"),
+ "C16": dict(
+    level="exploration",
+    technique="metamorphic relation across the four flag combinations plus reference-model verdicts, on injected-defect mixes (all 32 class subsets + rapid random mixes)",
+    text="Every case is run under all four flag combinations; the diagnostics under flags must be exactly the unflagged diagnostics minus the ignored classes, acceptance must follow, and accepted configurations must produce byte-identical output under every combination.",
+    note="Trusts the report parser; fact sets, not wording, are compared.",
+    ref="DESIGN.md §4 C16"),
  "C01": dict(
     level="exploration",
     technique="rapid-generated valid-by-construction configurations + bounded feature lattice; oracle = go/format + go/parser + the real Go type checker and linker on the generated package inside a fixture module pinned to the repository's runtime version, then package initialisation in a probe binary",
